@@ -117,9 +117,19 @@ func runC31(c *Ctx) error {
 		reg := map[string]ent{}
 		nsteps := 3 + c.Intn(12)
 		lastAdd := [4]int{-1, 0, 0, 0}
+		var ladder []string
+		if hi%6 == 5 {
+			core := fmt.Sprintf("%d.%d.%d", c.Intn(3), c.Intn(3), c.Intn(2))
+			rungs := [][]string{{"-rc.8", "-rc.9", "-rc.10"}, {"-2", "-10"}, {"-beta.99", "-beta.100"}, {"-alpha.9", "-alpha.10", "-alpha.11"}}[c.Intn(4)]
+			for _, j := range c.Perm(len(rungs)) {
+				ladder = append(ladder, core+rungs[j])
+			}
+			ladder = append(ladder, core+rungs[0]) // the lookup
+			nsteps += len(ladder)
+		}
 		for k := 0; k < nsteps; k++ {
 			ti := c.Intn(2)
-			M, m, p := c.Intn(2)+1, c.Intn(3), c.Intn(2)
+			M, m, p := c.Intn(3), c.Intn(3), c.Intn(2) // majors 0, 1, 2
 			r := c.Intn(10)
 			if lastAdd[0] >= 0 && c.Chance(1, 2) { // look up what was just added (the cache entry add() wrote)
 				ti, M, m, p = lastAdd[0], lastAdd[1], lastAdd[2], lastAdd[3]
@@ -130,12 +140,22 @@ func runC31(c *Ctx) error {
 				lastAdd = [4]int{ti, M, m, p}
 			}
 			t := types[ti]
-			pres := []string{"", "", "", "-1", "-2", "-10", "-ab", "-ba", "-alpha", "-alpha.1", "-1.b"}
+			pres := []string{"", "", "", "-1", "-2", "-10", "-ab", "-ba", "-alpha", "-alpha.1", "-1.b", "-rc.9", "-rc.10", "-rc.8", "-beta.99", "-beta.100"}
 			pre := pres[(M*7+m*3+p+int(c.U64()%3))%len(pres)]
 			if lastAdd[0] >= 0 && ti == lastAdd[0] && preOfLast != "?" {
 				pre = preOfLast
 			}
 			vs := fmt.Sprintf("%d.%d.%d%s", M, m, p, pre)
+			if len(ladder) > 0 { // a prerelease ladder of one version, added in a random order, then looked up
+				vs = ladder[0]
+				ladder = ladder[1:]
+				r = 0
+				if len(ladder) == 0 {
+					r = 5 // the last step of the ladder is the lookup
+				}
+				fmt.Sscanf(vs, "%d.%d.%d", &M, &m, &p)
+				lastAdd[0] = -1
+			}
 			v := util.MustNewVersion("v" + vs)
 			ht := hint.NewHint(hint.Type(t), v)
 			preOfLast = "?"
